@@ -416,6 +416,8 @@ func (g *genCtx) runC12(reqs []*genReq) {
 	}
 	// stage 4: compile everything that was emitted for the scratch module, in one `go build`
 	g.compileAndSmoke(states)
+	// stage 5: the same sets generated the way the usual protoc / buf loop does it: one request per .proto file
+	g.perFile(states)
 	for _, st := range states {
 		cls := "outcome/ok"
 		if st.skipped != "" {
@@ -733,9 +735,18 @@ func (g *genCtx) buildPackages(dir string, pkgs []string) map[string]string {
 	return res
 }
 
-func (g *genCtx) compileAndSmoke(states []*c12State) {
+func (g *genCtx) compileAndSmoke(states []*c12State) { g.compileAndSmokeIn(states, "") }
+
+// tag "": the module of the all-files requests; tag "pf": the module assembled from one-file-per-request outputs (perFile)
+func (g *genCtx) compileAndSmokeIn(states []*c12State, tag string) {
 	o := g.o
-	dir := filepath.Join(g.build, "gencheck", fmt.Sprintf("%s-%d", g.cfg.tier, g.cfg.seed))
+	dir := filepath.Join(g.build, "gencheck", fmt.Sprintf("%s-%d%s", g.cfg.tier, g.cfg.seed, tag))
+	hk := func(k string) string {
+		if tag == "" {
+			return k
+		}
+		return tag + "/" + k
+	}
 	files := map[string]string{}
 	owner := map[string]*c12State{} // package import path -> request
 	for _, st := range states {
@@ -772,8 +783,8 @@ func (g *genCtx) compileAndSmoke(states []*c12State) {
 	sort.Strings(pkgs)
 	t0 := time.Now()
 	errs := g.buildPackages(dir, pkgs)
-	o.hist["compile-seconds"] = int(time.Since(t0).Seconds())
-	o.hist["compiled-packages"] = len(pkgs)
+	o.hist[hk("compile-seconds")] = int(time.Since(t0).Seconds())
+	o.hist[hk("compiled-packages")] = len(pkgs)
 	// blame
 	broken := map[*c12State]string{}
 	for p, e := range errs {
@@ -813,7 +824,7 @@ func (g *genCtx) compileAndSmoke(states []*c12State) {
 		}
 	}
 	// init + smoke: a main importing every package that built
-	g.smoke(dir, okPkgs, owner, states)
+	g.smoke(dir, okPkgs, owner, states, tag)
 }
 
 func (g *genCtx) judgeWithReference(broken map[*c12State]string) {
@@ -858,7 +869,7 @@ func (g *genCtx) judgeWithReference(broken map[*c12State]string) {
 	}
 }
 
-func (g *genCtx) smoke(dir string, pkgs []string, owner map[string]*c12State, states []*c12State) {
+func (g *genCtx) smoke(dir string, pkgs []string, owner map[string]*c12State, states []*c12State, tag string) {
 	if len(pkgs) == 0 {
 		return
 	}
@@ -960,11 +971,11 @@ func (g *genCtx) smoke(dir string, pkgs []string, owner map[string]*c12State, st
 			if len(t) >= 3 {
 				var n int
 				fmt.Sscan(t[2], &n)
-				g.o.hist["smoke/"+t[1]] += n
+				g.o.hist["smoke"+tag+"/"+t[1]] += n
 			}
 		case "DISTINCT":
 			if len(t) >= 2 {
-				g.o.nontrivial(t[1])
+				g.o.nontrivial(tag + t[1])
 			}
 		}
 	}
